@@ -120,7 +120,7 @@ CLAIMS = {
          "the limit remains. Output filters are projections by C19_projection. The model is tied to sim()/sim_advanced()/parse_trace by the differential, including the derived pps value.", "DESIGN.md section 0 and 4, C14"),
 
  "C15": ("Theorems C15_causality (for all machine sets, base-only queues, delays, pps limits, tapes: for every side, kind and time T the TunnelRecv events up to T are at most "
-         "the other side's TunnelSent of that kind sent at least one delay before T -- the counting form of an injective matching to earlier sends), C15_conservation (NormalSent <= share, "
+         "the other side's TunnelSent of that kind sent at least one delay before T -- the counting form), C15_matching (the literal form, derived by a combinatorial lemma: an injective assignment of every TunnelRecv to a distinct TunnelSent of the other side and same kind sent at least one delay before), C15_conservation (NormalSent <= share, "
          "normal TunnelSent <= NormalSent, peer TunnelRecv <= TunnelSent, peer NormalRecv <= TunnelRecv), C15_complete (exactly the share when the run stops because all normal packets were "
          "processed; sim_loop_r is the loop returning its stop reason, proved equal to sim_loop), C15_sorted. Proved by a counting invariant over the whole main loop (induction on its fuel), "
          "heap operations handled as permutations. The simulator model is tied to sim_advanced by the trace-level differential (every draw of both frameworks recorded).", "DESIGN.md section 0 and 4, C15"),
